@@ -55,6 +55,8 @@ def _task(args):
             _SRC = Source()
         ex = Exec(_SRC, qual)
         paths = ex.explore()
+        if ex.unsupported:
+            out["unsupported"] = "; ".join(sorted(set(ex.unsupported)))[:600]
         out["symex_s"] = time.time() - t0
         out["paths"] = len(paths)
         for k, p in enumerate(paths):
@@ -67,13 +69,13 @@ def _task(args):
                 if wf is not None:
                     # an obligation an open finding is recorded for: first under the negated witness
                     # quick outright attempt (it passes once the defect is repaired), then under the negated witness
-                    v = solve.discharge(p, o, max(2000, timeout_ms // 6), use_cvc5=False)
+                    v = solve.discharge(p, o, max(2000, timeout_ms // 6), use_cvc5=False, hint=hints_for(o.name))
                     if v.status != "discharged":
                         v = retry_without_witness(ex, p, o, v, timeout_ms)
                         if not v.status.startswith("known:"):
-                            v = solve.discharge(p, o, timeout_ms)
+                            v = solve.discharge(p, o, timeout_ms, hint=hints_for(o.name))
                 else:
-                    v = solve.discharge(p, o, timeout_ms)
+                    v = solve.discharge(p, o, timeout_ms, hint=hints_for(o.name))
                 r = {"name": o.name, "norm": norm(o.name), "path": k, "status": v.status, "backend": v.backend,
                      "secs": round(v.secs, 3), "tags": o.tags, "kind": o.kind, "detail": v.detail,
                      "decisions": p.labels}
@@ -86,6 +88,18 @@ def _task(args):
         out["error"] = traceback.format_exc()
     out["wall_s"] = time.time() - t0
     return out
+
+
+_HINTS = None
+
+
+def hints_for(name):
+    global _HINTS
+    if _HINTS is None:
+        import json
+        fp = os.path.join(os.path.dirname(os.path.dirname(os.path.abspath(__file__))), "solver_hints.json")
+        _HINTS = json.load(open(fp)) if os.path.exists(fp) else {}
+    return _HINTS.get(norm(name))
 
 
 _FINDINGS = None
